@@ -12,9 +12,33 @@ TYPES = r"""
 namespace multi = boost::multi;
 #ifdef TRACKED_TRIVIAL
 using Tracked = int;
+using Other = long;
 #else
+// a second element type: conversions / assignments from it to Tracked may always throw (cross-element-type overloads of assignment and construction)
+struct Other {
+	int v;
+	Other() noexcept(false);
+	Other(Other const&) noexcept(false);
+	Other& operator=(Other const&) noexcept(false);
+	~Other();
+};
 struct Tracked {
 	int v;
+	Tracked(Other const&) noexcept(false);
+	Tracked& operator=(Other const&) noexcept(false);
+#ifdef TRACKED_NOTHROW_OWN
+	Tracked() noexcept;                                // every special member of the element itself is noexcept; only Tracked <- Other can throw
+	Tracked(Tracked const&) noexcept;
+	Tracked(Tracked&&) noexcept;
+	Tracked& operator=(Tracked const&) noexcept;
+	Tracked& operator=(Tracked&&) noexcept;
+	~Tracked();
+	bool operator==(Tracked const&) const;
+	bool operator<(Tracked const&) const;
+};
+#define TRACKED_DEFINED 1
+#endif
+#ifndef TRACKED_DEFINED
 	Tracked() noexcept(false);
 	Tracked(Tracked const&) noexcept(false);
 #ifdef TRACKED_NOTHROW_MOVE
@@ -30,6 +54,7 @@ struct Tracked {
 	bool operator==(Tracked const&) const;
 	bool operator<(Tracked const&) const;
 };
+#endif
 #endif
 template<class T, bool POCCA = false, bool POCMA = false, bool POCS = false, bool AE = false>
 struct ObsAlloc {
@@ -135,6 +160,23 @@ def ops(D):
     return o
 
 
+def cross_ops(D):
+    """operations between operands of different element types (instantiated for the noexcept scan; not trace-analysed)"""
+    o = [("view_assign_view", "Sub& v, OSub const& w", "v = w;"),
+         ("view_move_assign", "Sub& v, OSub& w", "v = std::move(w);"),
+         ("rvalue_view_assign_view", "Sub& v, OSub const& w", "std::move(v) = w;"),
+         ("rvalue_view_move_assign", "Sub& v, OSub& w", "std::move(v) = std::move(w);"),
+         ("view_assign_array", "Sub& v, OArr const& b", "v = b;"),
+         ("ref_assign_ref", "Ref& r, ORef const& q", "r = q;"),
+         ("rvalue_ref_assign_ref", "Ref& r, ORef const& q", "std::move(r) = q;"),
+         ("array_assign_array", "Arr& a, OArr const& b", "a = b;"),
+         ("array_assign_view", "Arr& a, OSub const& w", "a = w;"),
+         ("array_from_array", "void* m, OArr const& b", "new(m) Arr(b);"),
+         ("array_from_view", "void* m, OSub const& w", "new(m) Arr(w);"),
+         ("elements_assign", "Sub& v, OSub const& w", "v.elements() = w.elements();")]
+    return o
+
+
 def gen_driver(path, D, alloc="ObsAlloc<Tracked>", defines=""):
     lines = [defines, TYPES,
              "constexpr multi::dimensionality_type DD = %d;" % D,
@@ -145,6 +187,9 @@ def gen_driver(path, D, alloc="ObsAlloc<Tracked>", defines=""):
              "static_assert(sizeof(multi::array<Tracked, DD>) > 0 && sizeof(Arr) > 0 && sizeof(SArr) > 0 && sizeof(Ref) > 0 && sizeof(Sub) > 0 && sizeof(CSub) > 0, \"\");"]
     for op in ops(D):
         lines.append('extern "C" void d_%s(%s) { %s }' % (op["name"], op["params"], op["body"]))
+    lines.append("using OSub = multi::subarray<Other, DD>; using OArr = multi::array<Other, DD>; using ORef = multi::array_ref<Other, DD>;")
+    for name, params, body in cross_ops(D):
+        lines.append('extern "C" void x_%s(%s) { %s }' % (name, params, body))
     # direct instantiation of every construct-in-a-loop helper (R09.rollback instances)
     lines.append("""
 #ifndef TRACKED_TRIVIAL
